@@ -11,7 +11,7 @@ notes.md} written."""
 import json, os, shutil, subprocess, sys, time
 
 VERIF = os.path.dirname(os.path.dirname(os.path.abspath(__file__)))
-WT = "/tmp/jl-confirm-wt"
+WT = os.environ.get("JL_CONFIRM_WT", "/tmp/jl-confirm-wt")
 
 
 def sh(cmd, cwd, timeout=1800):
